@@ -9,6 +9,7 @@ import EmitModel.Model.Text
 import EmitModel.Lemmas.HexId
 import EmitModel.Lemmas.TraceparentText
 import EmitModel.Lemmas.TimestampText
+import EmitModel.Lemmas.TimestampOrder
 import EmitModel.Lemmas.PathValid
 import EmitModel.Model.KindText
 import EmitModel.Thm.C17
@@ -310,6 +311,23 @@ theorem ts_accepts_calendar_valid (t : Nat) (ht : t ≤ MAX_NS) (F : List UInt8)
     parseRfc3339 (rfc3339Text p.years p.months p.days p.hours p.minutes p.seconds F) =
       .ok (t / NANOS * NANOS + fracNanos F) := by
   exact accepts_lemma t ht F hF hFd
+
+/-- Formatted timestamps order lexicographically (byte-wise, which is `str`'s `Ord`) exactly as the instants do, at
+    any equal precision `k ∈ 0..9` — "exactly" meaning: as the instants truncated to the `k` printed sub-second
+    digits; two instants in the same 10^(9-k) ns bucket print the same text. -/
+theorem fmt_order (a b k : Nat) (ha : a ≤ MAX_NS) (hb : b ≤ MAX_NS) (hk : k ≤ 9) :
+    bytesLt (fmtRfc3339 (some k) a) (fmtRfc3339 (some k) b) = true ↔
+      a - a % 10 ^ (9 - k) < b - b % 10 ^ (9 - k) :=
+  fmt_order_lemma a b k ha hb hk
+
+/-- At full precision (`{:.9}`, which is also the default `Display`): `fmt a < fmt b ↔ a < b`. -/
+theorem fmt_order_full (a b : Nat) (ha : a ≤ MAX_NS) (hb : b ≤ MAX_NS) :
+    (bytesLt (fmtRfc3339 (some 9) a) (fmtRfc3339 (some 9) b) = true ↔ a < b) ∧
+    (bytesLt (fmtRfc3339 none a) (fmtRfc3339 none b) = true ↔ a < b) := by
+  have h := fmt_order a b 9 ha hb (Nat.le_refl 9)
+  simp only [Nat.sub_self, Nat.pow_zero, Nat.mod_one, Nat.sub_zero] at h
+  have e : ∀ t, fmtRfc3339 none t = fmtRfc3339 (some 9) t := by intro t; simp [fmtRfc3339, fmtParts]
+  exact ⟨h, by rw [e, e]; exact h⟩
 
 example : fmtRfc3339 (some 0) 0 = ascii "1970-01-01T00:00:00Z" := by decide +kernel
 example : parseRfc3339 (ascii "1970-01-01T00:00:00Z") = .ok 0 := by decide +kernel
